@@ -82,6 +82,7 @@ class Sys(e2.DevSys):
             for ttl in self.cfg["offer_ttls"]:
                 acts.append(("offer", i, ttl))
             acts.append(("stopoffer", i))
+        acts.append(("offer", 0, 0xFFFFFF))  # an offer with the infinite TTL (a later finite one replaces it)
         # one SD message with two entries for the same service: the last one counts
         acts += [("offer+stop", 0), ("stop+offer", 0, 3)]
         if not any(e[2] == "stop" for e in self.events):
